@@ -655,3 +655,481 @@ Definition needs_into (v : nvexpr) (ty : option toks) : bool :=
       match ty with Some ty => negb (lit_natural t ty) | None => true end
   | _ => false
   end.
+
+(** ** syn::Type::parse on a prefix of a token list (syn 2.0.119, ty.rs: ambig_ty)
+
+    Modelled: paths with generic arguments (lifetimes, types, literal / block
+    constants, `Assoc = Type` bindings), qualified paths, references, raw
+    pointers, tuples / parenthesised types, arrays (length = literal or
+    path), slices, `!`, `_`, bare-fn types, `dyn` / `impl` / bare trait
+    objects with their `+` bounds (and the `Fn(A) -> B` sugar inside bounds).
+    Macros in type position are covered.  Answered with [OutOfDomain]: `for<..>` binders
+    other than plain lifetime lists, variadic / attributed
+    fn arguments, `dyn*`, associated-const bindings and constraints in
+    generic arguments, array lengths that are not a literal or a path.
+    [plus] is syn's [allow_plus].  Every function returns the tokens that
+    remain after the construct; fuel bounds the number of calls. *)
+
+Definition fn_kw : list string := ["fn"; "unsafe"; "extern"].
+Definition path_noargs_kw : list string := ["super"; "self"; "crate"].
+
+Definition starts_with_punct (s : string) (ts : toks) : bool :=
+  match ts with t :: _ => is_punct s t | [] => false end.
+
+Definition array_len_ok (e : toks) : bool :=
+  match e with
+  | [t] => is_lit_tok t || (match t with TIdent s => mod_seg_ok s | _ => false end)
+  | _ => match path_segs mod_seg_ok (match e with
+                                     | TPunct p :: r => if String.eqb p "::" then r else e
+                                     | _ => e
+                                     end) with
+         | Some (_, []) => true
+         | _ => false
+         end
+  end.
+
+(** token views (boolean tests instead of string-literal patterns keep the
+    extracted code small) *)
+Definition after_punct (s : string) (ts : toks) : option toks :=
+  match ts with TPunct p :: r => if String.eqb p s then Some r else None | _ => None end.
+Definition after_ident (s : string) (ts : toks) : option toks :=
+  match ts with TIdent q :: r => if String.eqb q s then Some r else None | _ => None end.
+Definition skip_punct (s : string) (ts : toks) : toks :=
+  match after_punct s ts with Some r => r | None => ts end.
+Definition skip_ident (s : string) (ts : toks) : toks :=
+  match after_ident s ts with Some r => r | None => ts end.
+Definition skip_life (ts : toks) : toks := match ts with TLife _ :: r => r | _ => ts end.
+Definition starts_with_paren (ts : toks) : bool :=
+  match ts with TGroup Paren _ :: _ => true | _ => false end.
+Definition starts_with_life (ts : toks) : bool :=
+  match ts with TLife _ :: _ => true | _ => false end.
+
+(** what may follow a `+` for the bound list to continue (generics.rs: parse_multiple) *)
+Definition bound_follow (ts : toks) : bool :=
+  match ts with
+  | TIdent _ :: _ => true
+  | TPunct p :: _ => String.eqb p "::" || String.eqb p "?"
+  | TLife _ :: _ => true
+  | TGroup Paren _ :: _ => true
+  | _ => false
+  end.
+
+(** BoundLifetimes after `for <` : plain lifetimes only *)
+Fixpoint binder_rest (ts : toks) : outcome toks :=
+  match ts with
+  | [] => Err E_syn
+  | TPunct p :: r => if String.eqb p ">" then Ok r else OutOfDomain "type: for<..> binder"
+  | TLife _ :: r =>
+      match r with
+      | TPunct p :: r' =>
+          if String.eqb p ">" then Ok r'
+          else if String.eqb p "," then binder_rest r'
+          else if String.eqb p ":" then OutOfDomain "type: for<..> binder"
+          else Err E_syn
+      | _ => Err E_syn
+      end
+  | _ => OutOfDomain "type: for<..> binder"
+  end.
+(** Option<BoundLifetimes> *)
+Definition opt_binder (ts : toks) : outcome (bool * toks) :=
+  match after_ident "for" ts with
+  | Some r =>
+      match after_punct "<" r with
+      | Some r' => let* r'' := binder_rest r' in Ok (true, r'')
+      | None => Err E_syn
+      end
+  | None => Ok (false, ts)
+  end.
+
+Fixpoint ty_rest (n : nat) (plus : bool) (ts : toks) {struct n} : outcome toks :=
+  match n with
+  | 0 => OutOfDomain "type: fuel"
+  | S n =>
+    match ts with
+    | [] => Err E_syn
+    | t :: r =>
+      match t with
+      | TPunct p =>
+          if String.eqb p "&" then
+            (* TypeReference: & [lifetime] [mut] Type::without_plus *)
+            ty_rest n false (skip_ident "mut" (skip_life r))
+          else if String.eqb p "*" then
+            (* TypePtr: * (const | mut) Type::without_plus *)
+            match r with
+            | TIdent q :: r' =>
+                if String.eqb q "const" || String.eqb q "mut" then ty_rest n false r' else Err E_syn
+            | _ => Err E_syn
+            end
+          else if String.eqb p "!" then
+            if starts_with_punct "=" r then Err E_syn else Ok r
+          else if String.eqb p "::" then path_type n plus r
+          else if String.eqb p "<" then
+            (* qpath: < Type [as Path] > :: segments ; returned at once (no `+`, no macro) *)
+            let* r1 := ty_rest n true r in
+            let* r2 := match after_ident "as" r1 with
+                       | Some r' => let* x := path_rest n (skip_punct "::" r') in Ok (fst x)
+                       | None => Ok r1
+                       end in
+            match after_punct ">" r2 with
+            | Some r2' =>
+                match after_punct "::" r2' with
+                | Some r3 => let* x := path_rest n r3 in Ok (fst x)
+                | None => Err E_syn
+                end
+            | None => Err E_syn
+            end
+          else Err E_syn
+      | TIdent s =>
+          if String.eqb s "_" then Ok r
+          else if String.eqb s "for" then
+            let* br := opt_binder ts in
+            match snd br with
+            | TIdent k :: _ =>
+                if mem_str k fn_kw then bare_fn n (snd br)
+                else if mod_seg_ok k then
+                  (* for<..> Path [+ bounds] : a bare trait object (the `Fn(A)` sugar is not parsed here) *)
+                  let* x := path_rest n (snd br) in
+                  if starts_with_punct "!" (fst x) then OutOfDomain "type: for<..> macro"
+                  else if plus && starts_with_punct "+" (fst x)
+                  then let* y := bounds_tail n (fst x) in Ok (fst y)
+                  else Ok (fst x)
+                else Err E_syn
+            | _ => Err E_syn
+            end
+          else if mem_str s fn_kw then bare_fn n ts
+          else if String.eqb s "dyn" then
+            if starts_with_punct "*" r then OutOfDomain "type: dyn*"
+            else let* x := bounds n plus r in
+                 if snd x then Ok (fst x) else Err E_syn   (* at least one trait is required *)
+          else if String.eqb s "impl" then
+            let* x := bounds n plus r in
+            if snd x then Ok (fst x) else Err E_syn
+          else path_type n plus ts
+      | TLife _ =>
+          (* bare trait object starting with a lifetime: TypeTraitObject::parse, allow_plus = true *)
+          let* x := bounds n true ts in
+          if snd x then Ok (fst x) else Err E_syn
+      | TGroup Paren inner =>
+          if is_nil inner then Ok r
+          else if starts_with_life inner then
+            let* x := bounds n true inner in
+            if negb (snd x) then Err E_syn
+            else if is_nil (fst x) then Ok r else Err E_syn
+          else if starts_with_punct "?" inner then
+            (* (?Trait) [+ bound]* *)
+            let* x := trait_bound n inner in
+            if is_nil x then paren_tail n r else Err E_syn
+          else
+            let* r1 := ty_rest n true inner in
+            match r1 with
+            | [] =>
+                if plus && starts_with_punct "+" r then
+                  (* `(Path) + ..` is a bare trait object; any other parenthesised type keeps the `+` out *)
+                  if starts_with_punct "<" inner then Ok r
+                  else match path_rest n (skip_punct "::" inner) with
+                       | Ok ([], _) => paren_tail n r
+                       | _ => Ok r
+                       end
+                else Ok r
+            | _ =>
+                match after_punct "," r1 with
+                | Some r2 => let* _ := ty_list n r2 in Ok r
+                | None => Err E_syn
+                end
+            end
+      | TGroup Bracket inner =>
+          let* r' := ty_rest n true inner in
+          match r' with
+          | [] => Ok r
+          | _ =>
+              match after_punct ";" r' with
+              | Some e =>
+                  if is_nil e then Err E_syn
+                  else if array_len_ok e then Ok r
+                  else OutOfDomain "type: array length expression"
+              | None => Err E_syn
+              end
+          end
+      | TGroup Brace _ => Err E_syn
+      | TLit _ _ => Err E_syn
+      | TStr _ _ _ => Err E_syn
+      end
+    end
+  end
+(* a path type (after an optional leading `::`), then macro / `+` bounds *)
+with path_type (n : nat) (plus : bool) (ts : toks) {struct n} : outcome toks :=
+  match n with
+  | 0 => OutOfDomain "type: fuel"
+  | S n =>
+    let* x := path_rest n ts in
+    let r := fst x in
+    match after_punct "!" r with
+    | Some r' =>
+        (* `path ! delimited-group` is a macro when no segment has generic arguments (is_mod_style) *)
+        if starts_with_punct "=" r' then Ok r
+        else if has_angle (firstn (List.length ts - List.length r) ts) then Ok r
+        else match r' with
+             | TGroup _ _ :: r'' => Ok r''
+             | _ => Err E_syn
+             end
+    | None => if plus && starts_with_punct "+" r
+              then let* y := bounds_tail n r in Ok (fst y)
+              else Ok r
+    end
+  end
+(* Path::parse_helper (type style), positioned at a segment; also tells what
+   generic arguments the last segment carries: 0 none, 1 `<>`, 2 non-empty *)
+with path_rest (n : nat) (ts : toks) {struct n} : outcome (toks * nat) :=
+  match n with
+  | 0 => OutOfDomain "type: fuel"
+  | S n =>
+    match ts with
+    | TIdent s :: r =>
+        if negb (mod_seg_ok s) then Err E_syn
+        else
+          let cont (r : toks) (has : nat) : outcome (toks * nat) :=
+            (* parse_rest: `while input.peek(::) && !input.peek3(Paren)` *)
+            match after_punct "::" r with
+            | Some r' => if starts_with_paren r' then Ok (r, has) else path_rest n r'
+            | None => Ok (r, has)
+            end in
+          let args (r' : toks) : outcome (toks * nat) :=
+            let* r'' := gargs_rest n r' in cont r'' (if starts_with_punct ">" r' then 1 else 2) in
+          if mem_str s path_noargs_kw then cont r 0
+          else
+            match after_punct "<" r with
+            | Some r' =>
+                if starts_with_punct "=" r' then OutOfDomain "type: `<=` after a path" else args r'
+            | None =>
+                match after_punct "::" r with
+                | Some r1 => match after_punct "<" r1 with
+                             | Some r' => args r'
+                             | None => cont r 0
+                             end
+                | None => cont r 0
+                end
+            end
+    | _ => Err E_syn
+    end
+  end
+(* AngleBracketedGenericArguments, after the `<` *)
+with gargs_rest (n : nat) (ts : toks) {struct n} : outcome toks :=
+  match n with
+  | 0 => OutOfDomain "type: fuel"
+  | S n =>
+    if starts_with_punct ">" ts then Ok (tl ts)
+    else
+      let* r :=
+        match ts with
+        | [] => Err E_syn
+        | TLife _ :: r => if starts_with_punct "+" r then ty_rest n true ts else Ok r
+        | TGroup Brace _ :: r => Ok r
+        | t :: r =>
+            if is_punct "-" t then
+              match r with
+              | t' :: r' => if is_num_lit t' then Ok r' else Err E_syn
+              | [] => Err E_syn
+              end
+            else if is_lit_tok t then Ok r
+            else
+              match t, after_punct "=" r with
+              | TIdent _, Some r' =>
+                  (* Assoc = Type  (Assoc = const is out of the modelled domain) *)
+                  match r' with
+                  | [] => Err E_syn
+                  | TGroup Brace _ :: _ => OutOfDomain "type: associated const"
+                  | t' :: _ => if is_lit_tok t' || is_punct "-" t'
+                               then OutOfDomain "type: associated const"
+                               else ty_rest n true r'
+                  end
+              | _, _ => ty_rest n true ts
+              end
+        end in
+      match r with
+      | TPunct p :: r' =>
+          if String.eqb p ">" then Ok r'
+          else if String.eqb p "," then gargs_rest n r'
+          else if String.eqb p "=" || String.eqb p ":" then OutOfDomain "type: generic argument"
+          else Err E_syn
+      | _ => Err E_syn
+      end
+  end
+(* Type (, Type)* [,]  up to the end of a group *)
+with ty_list (n : nat) (ts : toks) {struct n} : outcome unit :=
+  match n with
+  | 0 => OutOfDomain "type: fuel"
+  | S n =>
+    match ts with
+    | [] => Ok Datatypes.tt
+    | _ =>
+      let* r := ty_rest n true ts in
+      match r with
+      | [] => Ok Datatypes.tt
+      | _ => match after_punct "," r with
+             | Some r' => ty_list n r'
+             | None => Err E_syn
+             end
+      end
+    end
+  end
+(* TypeBareFn after the binder: [unsafe] [extern ["abi"]] fn ( args ) [-> Type::without_plus] *)
+with bare_fn (n : nat) (ts : toks) {struct n} : outcome toks :=
+  match n with
+  | 0 => OutOfDomain "type: fuel"
+  | S n =>
+    let r0 := skip_ident "unsafe" ts in
+    let r1 := match after_ident "extern" r0 with
+              | Some r => match r with TStr _ _ _ :: r' => r' | _ => r end
+              | None => r0
+              end in
+    match after_ident "fn" r1 with
+    | Some (TGroup Paren args :: r2) =>
+        let* _ := fn_args n true args in
+        match after_punct "->" r2 with
+        | Some r3 => ty_rest n false r3
+        | None => Ok r2
+        end
+    | _ => Err E_syn
+    end
+  end
+(* the arguments of a bare fn: [name :] Type *)
+with fn_args (n : nat) (first : bool) (ts : toks) {struct n} : outcome unit :=
+  match n with
+  | 0 => OutOfDomain "type: fuel"
+  | S n =>
+    match ts with
+    | [] => Ok Datatypes.tt
+    | t :: r =>
+      if is_punct "#" t then OutOfDomain "type: fn argument attribute"
+      else if is_punct "..." t then OutOfDomain "type: variadic fn"
+      else if is_ident "mut" t then (if first then OutOfDomain "type: fn(mut self)" else Err E_syn)
+      else
+        let named := match t, after_punct ":" r with
+                     | TIdent s, Some r' =>
+                         if ident_ok s || String.eqb s "_" || (first && String.eqb s "self")
+                         then Some r' else None
+                     | _, _ => None
+                     end in
+        let arg := match named with Some r' => r' | None => ts end in
+        if starts_with_punct "..." arg then OutOfDomain "type: variadic fn"
+        else
+          let* r1 := ty_rest n true arg in
+          match r1 with
+          | [] => Ok Datatypes.tt
+          | _ => match after_punct "," r1 with
+                 | Some r' => fn_args n false r'
+                 | None => Err E_syn
+                 end
+          end
+    end
+  end
+(* TypeParamBound::parse_multiple : the rest and whether a trait bound was seen *)
+with bounds (n : nat) (plus : bool) (ts : toks) {struct n} : outcome (toks * bool) :=
+  match n with
+  | 0 => OutOfDomain "type: fuel"
+  | S n =>
+    let* x := bound_single n ts in
+    if plus then let* y := bounds_tail n (fst x) in Ok (fst y, snd x || snd y)
+    else Ok x
+  end
+(* ( + bound )* : stops after a `+` that nothing bound-like follows *)
+with bounds_tail (n : nat) (ts : toks) {struct n} : outcome (toks * bool) :=
+  match n with
+  | 0 => OutOfDomain "type: fuel"
+  | S n =>
+    match after_punct "+" ts with
+    | Some r =>
+        if bound_follow r then
+          let* x := bound_single n r in
+          let* y := bounds_tail n (fst x) in Ok (fst y, snd x || snd y)
+        else Ok (r, false)
+    | None => Ok (ts, false)
+    end
+  end
+(* after a parenthesised first bound: `while let Some(plus) = input.parse()? { parse_single }` *)
+with paren_tail (n : nat) (ts : toks) {struct n} : outcome toks :=
+  match n with
+  | 0 => OutOfDomain "type: fuel"
+  | S n =>
+    match after_punct "+" ts with
+    | Some r => let* x := bound_single n r in paren_tail n (fst x)
+    | None => Ok ts
+    end
+  end
+(* TypeParamBound::parse_single *)
+with bound_single (n : nat) (ts : toks) {struct n} : outcome (toks * bool) :=
+  match n with
+  | 0 => OutOfDomain "type: fuel"
+  | S n =>
+    match ts with
+    | TLife _ :: r => Ok (r, false)
+    | TGroup Paren inner :: r =>
+        let* x := trait_bound n inner in
+        if is_nil x then Ok (r, true) else Err E_syn
+    | _ => let* x := trait_bound n ts in Ok (x, true)
+    end
+  end
+(* TraitBound::do_parse : [for<..>] [?] Path [ (Types) [-> Type] ] *)
+with trait_bound (n : nat) (ts : toks) {struct n} : outcome toks :=
+  match n with
+  | 0 => OutOfDomain "type: fuel"
+  | S n =>
+    let* b1 := opt_binder ts in
+    let maybe := starts_with_punct "?" (snd b1) in
+    let r1 := if maybe then tl (snd b1) else snd b1 in
+    let* b2 := (if negb (fst b1) && maybe then opt_binder r1 else Ok (fst b1, r1)) in
+    let* x := path_rest n (skip_punct "::" (snd b2)) in
+    let* r3 :=
+      (if Nat.eqb (snd x) 2 then Ok (fst x)
+       else if Nat.eqb (snd x) 1 && (starts_with_paren (fst x) || starts_with_paren (skip_punct "::" (fst x)))
+       then OutOfDomain "type: Fn<>(..)"    (* printed back as Fn(..) *)
+       else
+         let sugar (r : toks) : outcome toks :=
+           match r with
+           | TGroup Paren args :: r' =>
+               let* _ := ty_list n args in
+               match after_punct "->" r' with
+               | Some r'' => ty_rest n false r''
+               | None => Ok r'
+               end
+           | _ => Ok (fst x)
+           end in
+         if starts_with_paren (fst x) then sugar (fst x)
+         else match after_punct "::" (fst x) with
+              | Some r' => if starts_with_paren r'
+                           then OutOfDomain "type: Fn::(..)"   (* printed back as Fn(..) *)
+                           else Ok (fst x)
+              | None => Ok (fst x)
+              end) in
+    if fst b2 && maybe then Err E_syn else Ok r3
+  end.
+
+(** [input.parse::<Type>()] : the type's tokens and what follows *)
+Definition parse_type_prefix (ts : toks) : outcome (toks * toks) :=
+  let* rest := ty_rest (4 * toks_size ts + 8) true ts in
+  Ok (firstn (List.length ts - List.length rest) ts, rest).
+
+(** common/type.rs : TypeWithPunctuatedMeta *)
+Definition parse_type_with_metas (ts : toks) : outcome (toks * list meta) :=
+  let* (ty, rest) := parse_type_prefix ts in
+  match rest with
+  | [] => Ok (ty, [])
+  | _ => match after_punct "," rest with
+         | Some r => let* ms := parse_metas r in Ok (ty, ms)
+         | None => Err E_syn
+         end
+  end.
+
+(** common/type.rs : dereference / dereference_changed on a well-formed type *)
+Definition is_ref_type (ty : toks) : bool := starts_with_punct "&" ty.
+
+Fixpoint strip_refs_fuel (n : nat) (ty : toks) : toks :=
+  match n with
+  | 0 => ty
+  | S n =>
+    match after_punct "&" ty with
+    | Some r => strip_refs_fuel n (skip_ident "mut" (skip_life r))
+    | None => ty
+    end
+  end.
+Definition strip_refs (ty : toks) : toks := strip_refs_fuel (List.length ty) ty.
